@@ -11,11 +11,15 @@ from symnp.core import AND, OR, NOT, IMPLIES, EQ
 REPL = {
     'pair->CFO': ('pair', ['C', 'F', 'O'], [(0, 0, 0), (1.35, 0, 0), (1.9, 1.1, 0.3)]),
     'pair->FO': ('pair', ['F', 'O'], [(1.35, 0.2, 0), (-0.5, 1.1, 0.3)]),
+    'pair->F-off-anchor': ('pair', ['F'], [(1.35, 0.2, 0)]),          # a one-atom replacement that does NOT sit on the first search atom
+    'chiral4->S-off-anchor': ('chiral4', ['S'], [(0.7, 0.8, 0.9)]),
     'pair->pair': ('pair', ['C', 'H'], [(0, 0, 0), (1.09, 0, 0)]),
     'chiral4->CHSP': ('chiral4', ['C', 'H', 'S', 'P'], [(0, 0, 0), (1.0, 0, 0), (0.3, 1.5, 0.2), (-0.4, -0.2, 1.8)]),
     'chiral4->chiral4': ('chiral4', ['C', 'H', 'N', 'O'], [(0, 0, 0), (1.0, 0, 0), (0, 1.2, 0), (0, 0, 1.4)]),
     'chiral4->big': ('chiral4', ['C', 'F', 'F', 'S', 'P', 'N'], [(0, 0, 0), (1.3, 0.1, 0), (-0.2, 1.4, 0.1), (0.1, -0.1, 1.9), (2.5, 2.5, 2.5), (0, 1.2, 0)]),
     'planar3->CNF': ('planar3', ['C', 'N', 'F'], [(0, 0, 0), (1.3, 0, 0), (-0.6, 1.3, 0.9)]),
+    'planar3->planar3B': ('planar3', ['Si', 'N', 'O'], [(0, 0, 0), (1.23, 0, 0), (-0.376, 1.034, 0)]),
+    'planar3B->planar3': ('planar3B', ['C', 'N', 'O'], [(0, 0, 0), (1.3, 0, 0), (-0.4, 1.1, 0)]),
     'collinear3->OCF': ('collinear3', ['O', 'C', 'F'], [(0, 0, 0), (1.2, 0, 0), (2.9, 0, 0)]),
     'collinear3->OCSN': ('collinear3', ['O', 'C', 'S', 'N'], [(0, 0, 0), (1.2, 0, 0), (2.7, 0, 0), (1.2, 1.0, 0.5)]),
     'pseudo6->plusS': ('pseudo6', ['C', 'H', 'H', 'F', 'N', 'O', 'S'], [(0, 0, 0), (1.1, 0, 0), (-1.1, 0, 0), (0, 1.3, 0), (0, -0.5, 1.2), (0, -0.5, -1.2), (0.8, 0.9, 1.5)]),
